@@ -135,6 +135,7 @@ type Proc struct {
 	picks      []interface{}
 	events     []trace.Event
 	refParams  map[string]bool
+	procVars   map[string]bool // state variables of the archetype's procedures (may hold refs)
 	locals     map[string]tla.Value
 	partial    map[string][]interface{}
 	localOrder []string
@@ -176,7 +177,12 @@ func (sys *System) AddProc(name string, self tla.Value, arch distsys.MPCalArchet
 	}
 	p := &Proc{Name: name, Self: self, sys: sys,
 		arrive: make(chan string), release: make(chan gateCmd), done: make(chan runResult, 1),
-		refParams: map[string]bool{}, locals: map[string]tla.Value{}, partial: map[string][]interface{}{}}
+		refParams: map[string]bool{}, procVars: map[string]bool{}, locals: map[string]tla.Value{}, partial: map[string][]interface{}{}}
+	for _, pr := range arch.ProcTable {
+		for _, v := range pr.StateVars {
+			p.procVars[v] = true
+		}
+	}
 	cfg := []distsys.MPCalContextConfigFn{
 		distsys.SetFairnessCounter(&gate{p}),
 		distsys.SetTraceRecorder(&recorder{p}),
@@ -425,11 +431,16 @@ func encElems(ev trace.Event) []Elem {
 // A local becomes known at its first write, or at a read that precedes any write in the same attempt.
 func (p *Proc) applyCommitted(ev trace.Event) {
 	written := map[string]bool{}
+	direct := false
 	for _, e := range ev.Elements {
 		switch e := e.(type) {
 		case trace.ReadElement:
 			n := elemName(e.Prefix, e.Name)
-			if p.refParams[n] || written[n] || len(e.Indices) != 0 {
+			if n == ".stack" {
+				direct = true
+			}
+			n, skip := p.resolveRef(n, direct)
+			if skip || written[n] || len(e.Indices) != 0 {
 				continue
 			}
 			if _, known := p.locals[n]; !known {
@@ -438,7 +449,11 @@ func (p *Proc) applyCommitted(ev trace.Event) {
 			}
 		case trace.WriteElement:
 			n := elemName(e.Prefix, e.Name)
-			if p.refParams[n] {
+			if n == ".stack" {
+				direct = true
+			}
+			n, skip := p.resolveRef(n, direct)
+			if skip {
 				continue
 			}
 			written[n] = true
@@ -458,23 +473,62 @@ func (p *Proc) applyCommitted(ev trace.Event) {
 	}
 }
 
+// resolveRef follows procedure `ref` parameters. The runtime passes a ref argument as the NAME of the resource it
+// designates (a string stored in the procedure's state variable) and records accesses made through it under the
+// parameter's name. Until the attempt touches .stack (a call or a return, which save / set / restore the state
+// variables themselves) an access to a local that holds such a name is an access to the designated resource.
+// skip: the designated resource is a bound ref parameter of the archetype (spec state, not a local), or cannot be told.
+func (p *Proc) resolveRef(n string, direct bool) (string, bool) {
+	if p.refParams[n] {
+		return n, true
+	}
+	if direct {
+		return n, false
+	}
+	for i := 0; i < 16 && p.procVars[n]; i++ { // only a procedure's state variables can hold a ref
+		v, known := p.locals[n]
+		if !known || !v.IsString() {
+			return n, false
+		}
+		t := v.AsString()
+		if strings.HasPrefix(t, "&") || p.refParams[t] {
+			return t, true
+		}
+		if _, isLocal := p.locals[t]; !isLocal && !strings.Contains(t, ".") {
+			return n, false // an ordinary string argument
+		}
+		n = t // a tracked local, or a local never accessed so far (tracked from now on)
+	}
+	return n, false
+}
+
 // staleReads compares every read of a known local (whole-variable reads that precede any write of the
 // same attempt) with the tracked committed value.
 func (p *Proc) staleReads(ev trace.Event) []string {
 	var out []string
 	written := map[string]bool{}
+	direct := false
 	for _, e := range ev.Elements {
 		switch e := e.(type) {
 		case trace.ReadElement:
 			n := elemName(e.Prefix, e.Name)
-			if p.refParams[n] || written[n] || len(e.Indices) != 0 {
+			if n == ".stack" {
+				direct = true
+			}
+			n, skip := p.resolveRef(n, direct)
+			if skip || written[n] || len(e.Indices) != 0 {
 				continue
 			}
 			if cur, known := p.locals[n]; known && !cur.Equal(e.Value.StripVClock()) {
 				out = append(out, fmt.Sprintf("%s read %s = %s, committed value is %s", p.Name, n, EncText(e.Value), EncText(cur)))
 			}
 		case trace.WriteElement:
-			written[elemName(e.Prefix, e.Name)] = true
+			n := elemName(e.Prefix, e.Name)
+			if n == ".stack" {
+				direct = true
+			}
+			n, _ = p.resolveRef(n, direct)
+			written[n] = true
 		}
 	}
 	return out
